@@ -828,6 +828,48 @@ def check_forest_order(rep, prog):
     return n
 
 
+def check_same_communicator(rep, prog):
+    """R04j: the slice a rank works on is computed from the communicator the collectives of the same function run on.  A helper that takes the
+    communicator as a *defaulted* parameter (`= boost::mpi::communicator()`, i.e. MPI_COMM_WORLD) and is called without it partitions by world
+    rank and world size while the broadcast / reduce run on the caller's (possibly split) communicator: the slices of its ranks no longer
+    cover the search space."""
+    what = 'rank() / size() used for the partition come from the communicator the collectives use'
+    n = 0
+    for fn in prog.functions:
+        if fn.implicit or fn.body is None or '/mpi/' not in fn.file:
+            continue
+        comm_params = [p_ for p_ in fn.param_ids if 'mpi::communicator' in ((prog.type(prog.vars[p_].get('ty')) or {}).get('canon') or '')]
+        if not comm_params:
+            continue
+        for c in fn.walk():
+            if c.k not in ('CallExpr', 'CXXMemberCallExpr') or not c.callee or not c.callee.get('in_repo') or c.callee_id is None:
+                continue
+            hf = prog.fn_of_fref(c.callee_id)
+            if hf is None:
+                continue
+            for ix, pid in enumerate(hf.param_ids):
+                if 'mpi::communicator' not in ((prog.type(prog.vars[pid].get('ty')) or {}).get('canon') or ''):
+                    continue
+                args = c.args()
+                n += 1
+                if ix >= len(args) or args[ix].strip().k == 'CXXDefaultArgExpr' or any(x.k == 'CXXDefaultArgExpr' for x in [args[ix]] + list(args[ix].walk())):
+                    rep.violation('R04j', c, fn, what, '`%s` leaves the communicator parameter of %s at its default (MPI_COMM_WORLD): the slice is computed from the world rank and size, '
+                                  'the collectives of this function use `%s`' % (c.text(40), hf.g.split('::')[-1], prog.vars[comm_params[0]]['name']),
+                                  key='R04j|%s|%s' % (fn.g, hf.g))
+                elif ex.var_of(args[ix]) in comm_params:
+                    rep.ok('R04j', c, fn, what, 'helper called with the function\'s communicator')
+                else:
+                    rep.undecided('R04j', c, fn, what, 'communicator argument `%s` not traced to the parameter' % args[ix].text(30))
+        for c in fn.walk():
+            if c.k == 'CXXMemberCallExpr' and c.callee and c.callee['g'] in ('boost::mpi::communicator::rank', 'boost::mpi::communicator::size') and c.object_arg() is not None:
+                o = c.object_arg().strip_all()
+                if o.k in ex.CTOR_KINDS or o.k in ('CXXTemporaryObjectExpr', 'MaterializeTemporaryExpr', 'CXXBindTemporaryExpr'):
+                    n += 1
+                    rep.violation('R04j', c, fn, what, '`%s` asks a freshly constructed communicator (MPI_COMM_WORLD) instead of `%s`' % (c.text(40), prog.vars[comm_params[0]]['name']),
+                                  key='R04j|%s|temporary' % fn.g)
+    return n
+
+
 def check_wire_root(rep, prog):
     """R04i: a candidate travels as (root vertex, edge index) and every rank rebuilds the tree at that root: the root sent must be the
     source of the tree the candidate belongs to.  The tree *number* is not a vertex: for the feedback-vertex-set collection tree i is rooted
@@ -871,6 +913,7 @@ def run(rep, tier):
     rep.rule('R04m', 'MPI min operator', floor=1)
     rep.rule('R16e', 'forest index order is address-free', floor=1)
     rep.rule('R02d', 'every rank builds its first-found lookup over a share it has sorted itself', floor=1)
+    rep.rule('R04j', 'partitions are computed from the communicator the collectives run on', floor=0)
     rep.rule('R04i', 'candidates are sent with the root vertex of their tree, not with the tree number', floor=1)
     tus = [env.witness_tu()]
     if tier == 'thorough':
@@ -901,6 +944,7 @@ def run(rep, tier):
         # (the received pairs are regrouped per root, so a globally sorted sequence does not arrive sorted) - shared with C02
         phase.report(rep, [f_ for f_ in F if f_[0] == 'R02d' and '/mpi/' in getattr(f_[2], 'file', '')], ['R02d'])
         check_wire_root(rep, prog)
+        check_same_communicator(rep, prog)
     pos = os.path.join(env.WITNESS, 'positive', 'c04_mpi.cc')
     try:
         pp = env.extract([pos], 'full', ('first:-I' + os.path.join(env.WITNESS, 'positive', 'broken_include'),))[pos]
